@@ -310,6 +310,35 @@ func checkB4(c *Ctx, pr *prioRoles) {
 	if len(pr.vacantsExprs) == 0 {
 		problems = append(problems, "no HandlersQuantity - sum(actual) computation found")
 	}
+	// whoever returns a value built from the subtraction returns exactly the subtraction
+	for _, e := range pr.vacantsExprs {
+		fn := e.Parent()
+		for _, s := range p.resultSyms(fn, 0) {
+			if stripChangeType(s.V) == ssa.Value(e) {
+				continue
+			}
+			var arith func(x *Sym) bool
+			arith = func(x *Sym) bool {
+				if x == nil {
+					return false
+				}
+				if x.V == ssa.Value(e) {
+					return true
+				}
+				if x.Op == "bin" || x.Op == "conv" || x.Op == "un" {
+					for _, a := range x.Args {
+						if arith(a) {
+							return true
+						}
+					}
+				}
+				return false
+			}
+			if arith(s) {
+				problems = append(problems, "vacants is computed as "+deepStrip(s).String()+", not HandlersQuantity - sum(actual)")
+			}
+		}
+	}
 	if !pr.vacantsInline {
 		// the helper returns nothing else
 		for _, s := range p.resultSyms(pr.vacantsFn, 0) {
